@@ -951,7 +951,7 @@ def main(chk: Check):
         return 3 * q if chk.fingerprint_changed else q
 
     # ---- dump stream
-    cases = build_cases(chk, budget(90, 800), depth=2 if not chk.thorough else 3)
+    cases = build_cases(chk, budget(90, 400), depth=2 if not chk.thorough else 3)
     hc = Case()       # the one fixed case of the hang class (costs its 2 s alarm once per run)
     hc.chunks, hc.feat, hc.trig = [("f", "f", "f () \n{ \n    cat <<''\nx\n\n}\n"), ("v", "Z", "Z=1\n")], {"heredoc-empty-delim"}, {}
     hc.vars, hc.funcs, hc.vwl, hc.fwl = [], ["f"], False, False
@@ -993,7 +993,7 @@ def main(chk: Check):
     pool = list(SNIPPETS) + small
     for s in SNIPPETS:
         raw.append((s, ["foo", "dar", "a", "x", "MODULE_NAMES", "FOO", "g"], ["foo", "f", "src_unpack", "x"], False, False))
-    for _ in range(budget(100, 2000)):
+    for _ in range(budget(100, 1200)):
         k = rng.randrange(3)
         if k == 0:
             s = "".join(rng.choice(SOUP) for _ in range(rng.randint(0, 24)))
@@ -1021,7 +1021,7 @@ def main(chk: Check):
     b1_py = [i for i, c in enumerate(cases) if c.impl != expected_text(c)]
 
     # ---- B2: bash oracle on a sample plus every textual failure
-    nb2 = budget(40, 300)
+    nb2 = budget(40, 200)
     sel = sorted(set(range(min(nb2, len(cases)))) | set(b1_py[:60]))
     b2s = bash_oracle(chk, [cases[i] for i in sel])
     b2 = {sel[k]: v for k, v in b2s.items()}
@@ -1050,7 +1050,7 @@ def main(chk: Check):
     #      stream lies inside the proved grammar (def_ok)
     if ok:
         rcases = []
-        for c in cases[: budget(30, 300)]:
+        for c in cases[: budget(30, 200)]:
             if c is hc or isinstance(c.impl, Err):
                 continue
             term = lex_case(c)
